@@ -362,9 +362,14 @@ fn run_restart(w: &WCase, running_n: u8, clean: bool) -> Outcome {
     let mut stop_state: Option<(BTreeSet<String>, BTreeSet<String>)> = None;
     let n = w.ops.len();
     let mut idx = 0;
+    let mut staged_seen = 0;
     let res = super::run_wcase(w, |sim, _op, setup| {
         if setup {
             return Ok(());
+        }
+        // a publication that RRDP does not show yet has its update task queued
+        if sim.w.is_some() && oracle::check_rrdp_followup_queued(sim)? {
+            staged_seen += 1;
         }
         idx += 1;
         if idx == n && n > 1 {
@@ -442,11 +447,19 @@ fn run_restart(w: &WCase, running_n: u8, clean: bool) -> Outcome {
     });
     match res {
         Err(o) => o,
-        Ok(_) => {
+        Ok(sim) => {
             let (p, r) = stop_state.unwrap_or_default();
             let mut classes = vec![format!("stopped_with_running:{}", r.len().min(3)), if clean { "clean_stop".to_string() } else { "crash_stop".to_string() }];
             if !p.is_empty() {
                 classes.push("stopped_with_pending".into());
+            }
+            if staged_seen > 0 {
+                classes.push("rrdp_followup_checked_with_staged_content".into());
+            }
+            for f in ["request_before_task_finish", "request_before_task_work", "foreign_publication"] {
+                if sim.flags.has(f) {
+                    classes.push(f.to_string());
+                }
             }
             Outcome::Pass { nontrivial: !r.is_empty(), classes, size: w.n_ops() }
         }
@@ -462,7 +475,7 @@ impl Prop for C09 {
             Tier::Quick => (5..60, 4..24),
             Tier::Thorough => (5..120, 4..40),
         };
-        let w = Weights { check: 0, quiesce: 2, pump: 10, publisher: 0, restart: 1, ca_delete: 1, max_advance: 2 * 86400, ..Weights::default() };
+        let w = Weights { check: 0, quiesce: 2, pump: 10, publisher: 0, restart: 1, ca_delete: 1, overlap: 10, foreign: 6, max_advance: 2 * 86400, ..Weights::default() };
         prop_oneof![
             3 => (any::<bool>(), vec(qop(), qn)).prop_map(|(disk, ops)| Case::Queue { disk, ops }),
             1 => (wcase_strategy(cfg_strategy(Just(true).boxed(), false), w, 4, wn), 0u8..4, prop_oneof![1 => Just(true), 3 => Just(false)])
